@@ -615,6 +615,13 @@ pub fn gen_world(seed: u64, p: &Profile) -> World {
             rules.push(Rule { spec: RuleSpec::Net(NetRule { exc, pat: format!("/{}/u{:03}", seg, k), opts: opts.clone(), tag: None }), perm: 0 });
         }
     }
+    // degenerate lists: nothing at all, cosmetic rules only, tagged network rules only
+    match r.below(40) {
+        0 => rules.clear(),
+        1 => rules.retain(|x| !x.is_net()),
+        2 => rules.retain(|x| x.tag().is_some()),
+        _ => {}
+    }
     r.shuffle(&mut rules);
 
     let mut extra = vec![];
